@@ -116,8 +116,15 @@ SAN_FLAGS = {
 }
 
 
-def cflags(cfg, san="asan", opt="-O1"):
-    return ["-g", opt, "-w", "-D" + GUARD] + cfg["defines"] + ["-I" + os.path.join(REPO, "src"), "-I" + cfg["incdir"]] + SAN_FLAGS[san]
+# VERIF_COV=1 (tools/covaudit.py): every gcc build of the harnesses and of the repo's objects is instrumented for gcov, so
+# that the audit can list the lines of the anchored source files that the correspondence runs never executed
+COV = bool(os.environ.get("VERIF_COV"))
+COV_FLAGS = ["--coverage", "-fprofile-update=atomic"]
+
+
+def cflags(cfg, san="asan", opt="-O1", cc="gcc"):
+    cov = COV_FLAGS if COV and cc == "gcc" else []
+    return ["-g", opt, "-w", "-D" + GUARD] + cfg["defines"] + ["-I" + os.path.join(REPO, "src"), "-I" + cfg["incdir"]] + SAN_FLAGS[san] + cov
 
 
 def repo_sources():
@@ -126,7 +133,7 @@ def repo_sources():
 
 def build_objs(cfg, files, san="asan", extra=(), tag="", cc="gcc", opt="-O1"):
     """compile the given /repo/src files (basenames) into objects; cached by content hash"""
-    flags = cflags(cfg, san, opt) + list(extra)
+    flags = cflags(cfg, san, opt, cc) + list(extra)
     key = file_hash(repo_sources() + [os.path.join(cfg["incdir"], "plibsysconfig.h")], " ".join(flags) + cc + tag)
     d = os.path.join(CACHE, "obj-" + key)
     os.makedirs(d, exist_ok=True)
@@ -135,9 +142,10 @@ def build_objs(cfg, files, san="asan", extra=(), tag="", cc="gcc", opt="-O1"):
         o = os.path.join(d, f.replace("/", "_") + ".o")
         if os.path.exists(o):
             return o, 0, ""
-        tmp = o + ".%d.tmp" % os.getpid()
+        # (coverage builds compile straight to the final name: the .gcno/.gcda names derive from it)
+        tmp = o if COV else o + ".%d.tmp" % os.getpid()
         rc, out = sh([cc] + flags + ["-c", os.path.join(REPO, "src", f), "-o", tmp])
-        if rc == 0:
+        if rc == 0 and tmp != o:
             os.replace(tmp, o)
         return o, rc, out
 
@@ -167,8 +175,11 @@ def build_harness(name, cfg, harness_srcs, repo_files=None, san="asan", extra=()
     if repo_files is None:
         repo_files = cfg["sources"]
     objs = build_objs(cfg, repo_files, san, extra=extra, tag=tag, cc=cc, opt=opt)
-    flags = cflags(cfg, san, opt) + list(extra)
+    flags = cflags(cfg, san, opt, cc) + list(extra)
     hs = [os.path.join(HARNESS, s) for s in harness_srcs]
+    if COV and cc == "gcc":
+        hs = hs + [os.path.join(HARNESS, "cov_flush.c")]
+        link = list(link) + ["-Wl,--wrap=_exit"]
     hdeps = hs + [p for p in _walk(HARNESS) if p.endswith(".h")]
     # repo sources are part of the key as well: a harness may `#include` a repo .c file directly
     key = file_hash(hdeps + objs + repo_sources(), " ".join(flags + list(link)) + cc + tag)
@@ -176,7 +187,7 @@ def build_harness(name, cfg, harness_srcs, repo_files=None, san="asan", extra=()
     os.makedirs(d, exist_ok=True)
     exe = os.path.join(d, name)
     if not os.path.exists(exe):
-        tmp = exe + ".%d.tmp" % os.getpid()
+        tmp = exe if COV else exe + ".%d.tmp" % os.getpid()
         rc, out = sh([cc] + flags + ["-I" + HARNESS] + hs + objs + ["-o", tmp, "-lpthread", "-ldl", "-lrt", "-lm"] + list(link))
         if rc != 0 and "undefined reference" in out and set(repo_files) != set(cfg["sources"]):
             # the files this harness isolates now call into other parts of the library (a rewrite may do that and
@@ -197,7 +208,8 @@ def build_harness(name, cfg, harness_srcs, repo_files=None, san="asan", extra=()
                 pass
         if rc != 0:
             raise BuildError("linking harness %s failed:\n%s" % (name, out[-3000:]))
-        os.replace(tmp, exe)
+        if tmp != exe:
+            os.replace(tmp, exe)
     _gc_cache("bin-", keep=40)
     return exe
 
